@@ -12,7 +12,19 @@ use std::io::Write;
 use std::process::{Command, Stdio};
 
 fn extreme_input(r: &mut Rng, thorough: bool) -> (Vec<u8>, &'static str) {
-    match r.below(14) {
+    match r.below(15) {
+        14 => {
+            // rows with more keys than a terminal has cells: 120, 121 … 400 columns
+            let ncols = *r.pick(&[119usize, 120, 121, 122, 130, 239, 240, 241, 400]);
+            let mut out = vec![];
+            for row in 0..(1 + r.below(4)) {
+                let mut m: Vec<String> = (0..ncols).map(|i| format!("\"c{:03}\":{}", i, (i * 7 + row) % 13)).collect();
+                m.push(format!("\"n\":{}", row));
+                m.push("\"s\":\"wide\"".to_string());
+                out.extend(format!("{{{}}}\n", m.join(",")).into_bytes());
+            }
+            (out, "wide-rows")
+        }
         0 => (vec![], "empty"),
         1 => (b"\n\n\n".to_vec(), "blank-lines"),
         2 => {
@@ -64,7 +76,10 @@ fn extreme_input(r: &mut Rng, thorough: bool) -> (Vec<u8>, &'static str) {
 /// accepted queries using every operator, option and function with argument values at the
 /// edges of their domains
 fn edge_query(r: &mut Rng) -> String {
-    let q = match r.below(30) {
+    let q = match r.below(33) {
+        30 => "* | json | sort by c000".to_string(),
+        31 => "* | json | sort by n desc | limit 2".to_string(),
+        32 => "* | json | count by c000, c001, c002, n | sort by n".to_string(),
         0 => "* | json | n + 9223372036854775807 as r".to_string(),
         1 => "* | json | n * x as r | sum(r), avg(r), min(r), max(r)".to_string(),
         2 => "* | json | 1s * n as d".to_string(),
@@ -117,7 +132,15 @@ pub fn check(ctx: &mut Ctx) {
         let mut r = ctx.rng.fork();
         let q = edge_query(&mut r);
         let (input, kind) = extreme_input(&mut r, ctx.thorough());
-        let mode = *r.pick(&["json", "json", "logfmt", "legacy", "format={n} {s} {missing}"]);
+        let mut mode = *r.pick(&["json", "json", "logfmt", "legacy", "format={n} {s} {missing}"]);
+        let mut q = q;
+        if kind == "wide-rows" && r.chance(70) {
+            // wide rows matter where a table is laid out: a sort over the raw rows, legacy output
+            q = r.pick(&["* | json | sort by c000", "* | json | sort by n desc | limit 2", "* | json | sort by c001, c000 | fields except s"]).to_string();
+            if r.chance(60) {
+                mode = "legacy";
+            }
+        }
         let key = ckey(&q, &input);
         let res = imp::run(&q, &input, mode, 20);
         let info = serde_json::json!({"query": q, "mode": mode, "input_kind": kind, "input_hex": if input.len() < 4000 { crate::enc::hexb(&input) } else { format!("({} bytes)", input.len()) }});
